@@ -338,7 +338,9 @@ class Parser(object):
         self.rule = rule
         self.scenario_container = rule
         self.statement = rule
-        self.feature.add_rule(self.statement)
+        if self.feature:
+            # -- NOTE: Standalone rule (variant="rule") has no feature.
+            self.feature.add_rule(self.statement)
         # -- RESET STATE:
         self.tags = []
 
@@ -353,6 +355,10 @@ class Parser(object):
                 raise ParserError(msg, self.line, self.filename, line)
         name = line[len(keyword) + 1:].strip()
         background = model.Background(self.filename, self.line, keyword, name)
+        if self.scenario_container is None:
+            # -- NOTE: Standalone parsing (variant: rule, scenario, steps).
+            msg = u"Background without Feature or Rule"
+            raise ParserError(msg, self.line, self.filename, line)
         self.scenario_container.add_background(background)
         self.statement = background
 
@@ -374,7 +380,8 @@ class Parser(object):
         template = model.ScenarioOutline(self.filename, self.line, keyword, name,
                                          tags=self.tags)
         self.statement = template
-        self.scenario_container.add_scenario(template)
+        if self.scenario_container:
+            self.scenario_container.add_scenario(template)
 
         # -- RESET STATE:
         self.tags = []
@@ -620,6 +627,9 @@ class Parser(object):
             self.state = State.BACKGROUND
             return True
 
+        if self.rule is None:
+            # -- NOTE: Standalone rule (variant="rule") without Rule keyword.
+            return False
         self.rule.description.append(line)
         return True
 
@@ -637,6 +647,9 @@ class Parser(object):
         """
         self.last_step_type = None
         line = line.strip()
+        if self.statement is None:
+            # -- NOTE: Standalone scenario (variant="scenario") without keyword.
+            return self.subaction_detect_taggable_statement(line)
         step = self.parse_step(line)
         if step:
             # -- FIRST STEP DETECTED: End collection of description-part.
@@ -773,7 +786,7 @@ class Parser(object):
         if not re.match(r"^(|.+)\|$", line):
             logger = logging.getLogger("behave")
             logger.warning(u"Malformed table row at %s: line %i",
-                           self.feature.filename, self.line)
+                           self.filename, self.line)
 
         # -- SUPPORT: Escaped-pipe(s) in Gherkin cell values.
         #    Search for pipe(s) that are not preceded with an escape char.
@@ -807,7 +820,7 @@ class Parser(object):
         :return: List of parsed rule (as :class:`~behave.model:Rule` object).
         """
         self._parse_loop(text, initial_state=State.RULE, filename=filename)
-        rule = self.statement
+        rule = self.rule
         return rule
 
 
@@ -951,5 +964,9 @@ class Parser(object):
             self.action_table("")
 
         self._parse_loop(text, initial_state=State.STEPS, filename=filename)
-        steps = self.statement.steps
+        steps = getattr(self.statement, "steps", None)
+        if steps is None:
+            # -- CASE: Text contains a Rule (or other statement without steps).
+            message = u"Steps expected, but found: %s" % self.statement.keyword
+            raise ParserError(message, self.statement.line or 1, self.filename)
         return steps
